@@ -6,7 +6,7 @@ CFG = {
     "go_cmd": "c16",
     "stages": ["go:gen", "go:impl", "lean:judge"],
     "theorems": [T + n for n in ["getStartEnd_partition", "C16_geom", "C16_geom_unsupported", "C16_order", "C16_order_encode",
-                                 "C16_int", "C16_int_width", "C16_string", "C16_string_violations",
+                                 "C16_int", "C16_int_width", "C16_string", "C16_string_violations", "C16_float", "C16_float_render",
                                  "C16_match", "C16_match_none", "C16_match_fields"]],
     "trusted_base": [
         "Lean 4.33.0 kernel; axioms of every theorem printed by #print axioms must be within {propext, Classical.choice, Quot.sound}",
